@@ -183,6 +183,32 @@ func TestC08Threshold(t *testing.T) {
 				}
 				vstat.Case(fmt.Sprintf("%d/%d/%b/%s/%d/%x", n, thr, m, kind, victim, entropy[:6]), true, "negative:"+kind)
 			}
+			// every contributing signature is over the other message: the combination is that message's
+			// signature (positive control) and must not verify for this one, in either order of asking
+			{
+				other := map[int]tbls.Signature{}
+				for _, i := range idxs {
+					other[i], _ = tbls.Sign(shares[i], otherMsg)
+				}
+				oagg, err := tbls.ThresholdAggregate(other)
+				if err != nil {
+					rt.Fatalf("ThresholdAggregate(%v) over the other message: %v", idxs, err)
+				}
+				askFirst := rapid.Bool().Draw(rt, "negativeFirst")
+				if askFirst && tbls.Verify(group, msg, oagg) == nil {
+					rt.Fatalf("NEGATIVE ACCEPTED: the combination of %v over another message verifies for this message", idxs)
+				}
+				if err := tbls.Verify(group, otherMsg, oagg); err != nil {
+					rt.Fatalf("combination of %v over the other message does not verify for it: %v", idxs, err)
+				}
+				if tbls.Verify(group, msg, oagg) == nil {
+					rt.Fatalf("NEGATIVE ACCEPTED: the combination of %v over another message verifies for this message (after it was verified for its own message)", idxs)
+				}
+				if tbls.Verify(pubshares[victim], otherMsg, partials[victim]) == nil {
+					rt.Fatalf("NEGATIVE ACCEPTED: partial signature of share %d verifies for another message", victim)
+				}
+				vstat.Case(fmt.Sprintf("%d/%d/%b/all_other_message/%x", n, thr, m, entropy[:6]), true, "negative:all_other_message")
+			}
 			if nontrivial && vstat.WantSample("subset") {
 				vstat.Sample("subset", map[string]any{"n": n, "t": thr, "subset": idxs, "msg_len": len(msg), "negatives_checked": []string{"wrong_share", "wrong_index", "other_message"}})
 			}
